@@ -598,6 +598,8 @@ class Engine(object):
         cfg = self.cfg
         if not cfg.concurrent and why == "stmt":
             return
+        if getattr(cfg, "sequential", False) and why != "block":
+            return          # one method as one atomic step (contracts/c_stdlib.py: justified by the static locking obligation there)
         st.n_interf += 1
         held_ids = []       # (owner id term, lock field, kind)
         for (lid, kind, owner, lf) in st.held:
@@ -774,6 +776,8 @@ class Engine(object):
     def module_assign(self, st, mi, name, expr):
         # aliases and simple constants at module level
         if isinstance(expr, ast.Name):
+            if expr.id == name:
+                return self.b.builtin_name(self, name)          # `TimeoutError = TimeoutError`: a local alias of the builtin
             return self.module_name(st, mi, expr.id)
         if isinstance(expr, ast.Constant):
             return expr.value
@@ -863,6 +867,14 @@ class Engine(object):
                 yield st1, TupleV(vs)
 
     def ev_List(self, e, st, fr):
+        for st1, vs in self.ev_seq(e.elts, st, fr):
+            if isinstance(vs, Raise):
+                yield st1, vs
+            else:
+                yield st1, self.b.new_list(self, st1, vs)
+
+    def ev_Set(self, e, st, fr):
+        # a set display of constants used for a membership test (`x in {A, B}`): same as the list display
         for st1, vs in self.ev_seq(e.elts, st, fr):
             if isinstance(vs, Raise):
                 yield st1, vs
